@@ -20,3 +20,4 @@ def run(chk):
     F.rule_combinator_store(chk, chk.repo, "C09.5")
     F.rule_progress_metadata_guard(chk, ev, "C09.7")
     X.rule_trigger_complements_guard(chk, "C09.8")
+    X.rule_predecessor_keeps_absolute(chk, "C09.9")
